@@ -266,6 +266,12 @@ double Integrate_3D(std::function<double(Vector)> func, double r1, double r2, do
 	return Integrate_3D(integrand, r1, r2, costheta_1, costheta_2, phi_1, phi_2, method, method_parameter);
 }
 
+#ifdef LIBPHYSICA_VERIF
+// Verification hook (off unless LIBPHYSICA_VERIF is defined): a non-zero value replaces the
+// operating-system seed of the per-call generators of the Monte-Carlo integrators.
+unsigned long verif_mc_seed = 0;
+#endif
+
 // 2.2 Monte Carlo Integration
 // Reference: Some of these functions are taken from http://numerical.recipes/webnotes/nr3web9.pdf
 
@@ -306,6 +312,10 @@ double Integrate_MC_Vegas(std::function<double(std::vector<double>&, const doubl
 	// Initialize  captive, static random number generator
 	std::random_device rd;
 	std::mt19937 PRNG(rd());
+#ifdef LIBPHYSICA_VERIF
+	if(verif_mc_seed != 0)
+		PRNG.seed(verif_mc_seed);
+#endif
 
 	int ndim = region.size() / 2;
 	if(init <= 0)
@@ -538,6 +548,10 @@ double Integrate_MC_Brute_Force(std::function<double(std::vector<double>&, const
 {
 	std::random_device rd;
 	std::mt19937 PRNG(rd());
+#ifdef LIBPHYSICA_VERIF
+	if(verif_mc_seed != 0)
+		PRNG.seed(verif_mc_seed);
+#endif
 
 	double volume = MC_Volume(region);
 
@@ -660,6 +674,10 @@ double Integrate_MC_Miser(std::function<double(std::vector<double>&, const doubl
 	// Initialize  captive, static random number generator
 	std::random_device rd;
 	std::mt19937 PRNG(rd());
+#ifdef LIBPHYSICA_VERIF
+	if(verif_mc_seed != 0)
+		PRNG.seed(verif_mc_seed);
+#endif
 
 	double dith = 0.0;
 	double average, var;
